@@ -113,6 +113,7 @@ type esEntry struct {
 	streamType byte
 	pid        uint16
 	teletext   bool
+	descKind   int // how the teletext PID is announced (see ttxStream.DescKind)
 }
 
 func pmtBody(pcrPID uint16, es []esEntry) []byte {
@@ -122,6 +123,20 @@ func pmtBody(pcrPID uint16, es []esEntry) []byte {
 		if e.teletext {
 			// teletext_descriptor: tag 0x56, one entry: language, type 0x02 (subtitle page), magazine 1, page 0x88
 			desc = []byte{0x56, 0x05, 'e', 'n', 'g', 0x02<<3 | 0x01, 0x88}
+			switch e.descKind {
+			case 1:
+				// announces an initial teletext page only (type 0x01), no subtitle page
+				desc = []byte{0x56, 0x05, 'e', 'n', 'g', 0x01<<3 | 0x01, 0x00}
+			case 2:
+				// VBI teletext descriptor (tag 0x46), same layout
+				desc = []byte{0x46, 0x05, 'e', 'n', 'g', 0x02<<3 | 0x01, 0x88}
+			case 3:
+				// two entries: an additional information page and a page for the hearing impaired
+				desc = []byte{0x56, 0x0a, 'e', 'n', 'g', 0x03<<3 | 0x01, 0x00, 'f', 'r', 'a', 0x05<<3 | 0x02, 0x77}
+			case 4:
+				// no entry at all
+				desc = []byte{0x56, 0x00}
+			}
 		}
 		b = append(b, e.streamType, 0xe0|byte(e.pid>>8), byte(e.pid), 0xf0|byte(len(desc)>>8), byte(len(desc)))
 		b = append(b, desc...)
@@ -353,18 +368,24 @@ type ttxStream struct {
 	Serial    bool          `json:"serial"`
 	Instances []ttxInstance `json:"instances"`
 	// multiplex choices
-	OtherPIDFirst bool  `json:"other_pid_first"` // PMT lists non-teletext streams first
-	SecondTTXPID  bool  `json:"second_ttx_pid"`  // a second teletext PID carrying the same page number with other text
-	PMTRepeat     bool  `json:"pmt_repeat"`
-	Stuffing      bool  `json:"stuffing"`
-	NonSubtitle   bool  `json:"non_subtitle"` // data units 0x02 carrying look-alike packets
-	Enhancement   bool  `json:"enhancement"`  // X/26, X/27, 8/30 and X/28, M/29 of other magazines
-	Filler        bool  `json:"filler"`       // 0xFF time-filling headers
-	HexDistractor bool  `json:"hex_distractor"`
-	SamePageOther bool  `json:"same_page_other_mag"` // parallel mode only
-	Designation   int   `json:"designation"`         // 1: X/28/0 after each header, 2: M/29/0 before each header, designating the set the header already selects
-	LeadIn        int64 `json:"lead_in"`             // PTS of a PES sent before the first instance (sets the time origin); 0 none
-	LeadOut       int64 `json:"lead_out"`            // extra PTS after the last instance
+	OtherPIDFirst bool `json:"other_pid_first"` // PMT lists non-teletext streams first
+	SecondTTXPID  bool `json:"second_ttx_pid"`  // a second teletext PID carrying the same page number with other text
+	PMTRepeat     bool `json:"pmt_repeat"`
+	Stuffing      bool `json:"stuffing"`
+	NonSubtitle   bool `json:"non_subtitle"` // data units 0x02 carrying look-alike packets
+	Enhancement   bool `json:"enhancement"`  // X/26, X/27, 8/30 and X/28, M/29 of other magazines
+	Filler        bool `json:"filler"`       // 0xFF time-filling headers
+	HexDistractor bool `json:"hex_distractor"`
+	SamePageOther bool `json:"same_page_other_mag"` // parallel mode only
+	// DescKind: how the PMT announces the (first) teletext PID: 0 teletext descriptor with a subtitle page, 1 initial page
+	// only, 2 VBI teletext descriptor, 3 two entries of other types, 4 descriptor without entries. It is the first
+	// teletext PID of the PMT in every case.
+	DescKind int `json:"desc_kind,omitempty"`
+	// ViaFile: also read the stream from a file through Open
+	ViaFile     bool  `json:"via_file,omitempty"`
+	Designation int   `json:"designation"` // 1: X/28/0 after each header, 2: M/29/0 before each header, designating the set the header already selects
+	LeadIn      int64 `json:"lead_in"`     // PTS of a PES sent before the first instance (sets the time origin); 0 none
+	LeadOut     int64 `json:"lead_out"`    // extra PTS after the last instance
 	// reader options
 	OptPage bool `json:"opt_page"`
 	OptPID  bool `json:"opt_pid"`
@@ -385,12 +406,12 @@ func (s ttxStream) pageOption() int {
 // render assembles the transport stream and returns it with the ground truth.
 func (s ttxStream) render() ([]byte, []ttxExpCue) {
 	m := newTSMux()
-	es := []esEntry{{0x06, ttxPID, true}}
+	es := []esEntry{{0x06, ttxPID, true, s.DescKind}}
 	if s.SecondTTXPID {
-		es = append(es, esEntry{0x06, ttxPID2, true})
+		es = append(es, esEntry{0x06, ttxPID2, true, 0})
 	}
 	if s.OtherPIDFirst {
-		es = append([]esEntry{{0x02, videoPID, false}, {0x06, 0x103, false}}, es...)
+		es = append([]esEntry{{0x02, videoPID, false, 0}, {0x06, 0x103, false, 0}}, es...)
 	}
 	tables := func() {
 		m.packets(0, psiSection(0, 1, []byte{0, 1, 0xe0 | byte(pmtPID>>8), byte(pmtPID & 0xff)}))
@@ -824,6 +845,8 @@ func genTTXStream(t *rapid.T) ttxStream {
 		OptPage:       rapid.Bool().Draw(t, "optpage"),
 		OptPID:        rapid.Bool().Draw(t, "optpid"),
 		Designation:   rapid.SampledFrom([]int{0, 0, 1, 2, 3, 4, 5}).Draw(t, "designation"),
+		DescKind:      rapid.SampledFrom([]int{0, 0, 0, 1, 2, 3, 4}).Draw(t, "desckind"),
+		ViaFile:       rapid.IntRange(0, 3).Draw(t, "viafile") == 0,
 	}
 	pts := rapid.Int64Range(2, 90000*3600).Draw(t, "pts0")
 	if rapid.Bool().Draw(t, "leadin") {
